@@ -1274,10 +1274,34 @@ func (c Clause) String() string {
 		}
 		premises.WriteString(p.String())
 	}
-	if c.Transform == nil {
-		return fmt.Sprintf("%s :- %s.", headStr, premises.String())
+	body := premises.String()
+	if c.Transform != nil {
+		body = fmt.Sprintf("%s |> %s", body, c.Transform.String())
 	}
-	return fmt.Sprintf("%s :- %s |> %s.", headStr, premises.String(), c.Transform.String())
+	if endsWithNameChar(body) {
+		// A '.' directly after a name constant would be read as part of the name.
+		return fmt.Sprintf("%s :- %s .", headStr, body)
+	}
+	return fmt.Sprintf("%s :- %s.", headStr, body)
+}
+
+// endsWithNameChar reports whether s ends in a character that may occur in a
+// name constant, outside of a string literal or bracketed expression.
+func endsWithNameChar(s string) bool {
+	if s == "" {
+		return false
+	}
+	i := len(s) - 1
+	for i >= 0 && isNameConstantChar(s[i]) {
+		i--
+	}
+	// The run of name characters is a name constant only if it starts with '/'.
+	return i < len(s)-1 && i >= 0 && s[i] == '/'
+}
+
+func isNameConstantChar(b byte) bool {
+	return b >= 'a' && b <= 'z' || b >= 'A' && b <= 'Z' || b >= '0' && b <= '9' ||
+		b == '.' || b == '-' || b == '_' || b == '~' || b == '%'
 }
 
 func (t Transform) String() string {
